@@ -1941,6 +1941,8 @@ func (x *c03ctx) runK7() {
 		x.ruleClassesAs("K8")
 	}
 	c.Floor("K8", 3, "csv2, fixedlength2, edi")
+	c03LoopsExitOnError(c)
+	c.Floor("K9", 5, "token/line/record fetch loops of the readers")
 }
 
 func c03min(a, b int) int {
